@@ -224,17 +224,78 @@ func c09Ev(r *Run, f *xl.File, toks []efp.Token, fromText, class string) {
 			res = "ok " + c09ShowArg(a)
 		}
 	}()
+	hyp := c09NestedNoArray(toks)
+	outcome := res
+	if hyp {
+		res += " h=1"
+	} else {
+		res += " h=0"
+	}
 	ln := r.Op(op, res)
 	r.Case(op, len(toks) > 0)
 	r.Stat("ev:" + class)
 	r.Stat("ev:outcome:" + strings.SplitN(res, " ", 2)[0])
-	if res == "PANIC" {
-		if fromText != "" {
+	if hyp {
+		r.Stat("ev:hypothesis-of-eval_no_panic_functions-holds")
+	}
+	if outcome == "PANIC" {
+		if hyp {
+			// the Lean theorem eval_no_panic_functions says this cannot happen, whatever produced the list
+			r.Fail("ev:panic-on-nested-list@"+site, fmt.Sprintf("evalInfixExp panics (%s) on a properly nested, array-free token list [%s]", site, c09Shape(toks)), ln, op)
+		} else if fromText != "" {
 			r.Fail("ev:panic@"+site+" shape["+c09Shape(toks)+"]", fmt.Sprintf("evalInfixExp panics (%s) on the efp tokens of formula %q", site, fromText), ln, op)
 		} else {
 			r.Stat("ev:panic-on-non-efp-tokens")
 		}
 	}
+}
+
+// c09NestedNoArray is the hypothesis of the Lean theorem eval_no_panic_functions
+// (XlModel.CalcTotal.nested [] 0 toks, no ARRAY/ARRAYROW start), re-implemented here; the
+// transcript compares it with the Lean checker on every ev line.
+func c09NestedNoArray(toks []efp.Token) bool {
+	var inner []byte // 'F' | 'P', innermost last
+	outer := 0
+	for _, t := range toks {
+		fn, sub := t.TType == efp.TokenTypeFunction, t.TType == efp.TokenTypeSubexpression
+		switch {
+		case fn && t.TSubType == efp.TokenSubTypeStart:
+			if t.TValue == "ARRAY" || t.TValue == "ARRAYROW" {
+				return false
+			}
+			inner = append(inner, 'F')
+		case fn && t.TSubType == efp.TokenSubTypeStop:
+			if len(inner) > 0 {
+				if inner[len(inner)-1] != 'F' {
+					return false
+				}
+				inner = inner[:len(inner)-1]
+			}
+		case t.TType == efp.TokenTypeArgument:
+			if len(inner) > 0 && inner[len(inner)-1] == 'P' {
+				return false
+			}
+		case sub && t.TSubType == efp.TokenSubTypeStart:
+			if len(inner) == 0 {
+				outer++
+			} else {
+				inner = append(inner, 'P')
+			}
+		case sub && t.TSubType == efp.TokenSubTypeStop:
+			if len(inner) == 0 {
+				if outer == 0 {
+					return false
+				}
+				outer--
+			} else {
+				if inner[len(inner)-1] != 'P' {
+					return false
+				}
+				inner = inner[:len(inner)-1]
+			}
+		}
+	}
+	return true
 }
 
 var c09EvAlphabet = []efp.Token{
@@ -373,7 +434,7 @@ func c09Mutate(rng *Rng, ts []efp.Token) []efp.Token {
 // kept so that a regression is reproduced deterministically)
 var c09EvWitnesses = []string{"({1}+SUM(2))", "'*'(1 2+3)", "SUM(1 '*'(2+3))", "'-'(1 2-3)", "'='(1 2=3)", "({1;2}+SUM(2)+(3))",
 	"1)", "SUM(1))", ")", "{1}+SUM(2)", "SUM((1,2))", "SUM(,)", "{SUM(1)}", "SUM({1}{2})", "1%%", "--1", "SUM(A1:A2,A1)", "SUM(A1:A2 A1)",
-	"SUM(({1,2}))", "SUM((1+{1,2}))", "LOOKUP((2,/{1,2,3},{\"a\",\"b\",\"c\"})", "SUM(0:0)", "1:0", "SUM(1:1048577)", "1+", "SUM(1+)", "1*", "-", "(1+)", "1&", "SUM(1,)", "SUM(+)", "1<", "(({1}))", "SUM(({1}))", "({1})+SUM(1,(2))", "'*'((1 2)+3)", "SUM('*'(1,2) 3+4)"}
+	"SUM(({1,2}))", "SUM((1+{1,2}))", "LOOKUP((2,/{1,2,3},{\"a\",\"b\",\"c\"})", "SUM(0:0)", "1:0", "SUM(1:1048577)", "{(SUM(1))}", "MAX({(SUM(1))})", "{1,(SUM(1))}", "{(1)}", "1+", "SUM(1+)", "1*", "-", "(1+)", "1&", "SUM(1,)", "SUM(+)", "1<", "(({1}))", "SUM(({1}))", "({1})+SUM(1,(2))", "'*'((1 2)+3)", "SUM('*'(1,2) 3+4)"}
 
 func c09EvStream(r *Run, rng *Rng) {
 	f := c09EvFile()
